@@ -168,6 +168,9 @@ static std::vector<std::string> reg_gen(const GenArgs &ga) {
       // prefixes of every length the 8-byte prefix field can hold a terminated string of (1..7 characters)
       int pk = (int)r.below(4);
       std::string prefix = pk == 0 ? strf("extset%d", nsets) : pk == 1 ? strf("%c", 'p' + nsets) : pk == 2 ? strf("plug%d", nsets) : strf("x%d", nsets);
+      // two plugins may choose the same prefix, or long ones that agree in the seven characters the library keeps:
+      // every registration is a set of its own all the same
+      if (r.chance(1, 6)) prefix = r.chance(1, 2) ? "ext" : (nsets % 2 ? "plugin_audio" : "plugin_video");
       std::string l = strf("op regset prefix=%s ops=", prefix.c_str());
       std::vector<std::pair<int, int>> ops;
       for (int k = 0; k < n; k++) {
@@ -438,8 +441,18 @@ static void reg_run(const std::vector<std::string> &plan, Child &c) {
       else {
         m.set = atoi(setname.c_str());
         if (m.set >= (int)sets.size()) continue;
-        oset = orc_opcode_set_get(sets[m.set].prefix.c_str());
-        if (!oset) { c.violation("registry", "opcode-set-not-found-by-prefix", "orc_opcode_set_get() does not find a registered set"); continue; }
+        // by prefix where the prefix identifies the set (at most seven characters, used once), else by the number
+        // the registration returned
+        int same = 0;
+        for (auto &o2 : sets) if (o2.prefix.substr(0, 7) == sets[m.set].prefix.substr(0, 7)) same++;
+        if (same == 1 && sets[m.set].prefix.size() <= 7) {
+          oset = orc_opcode_set_get(sets[m.set].prefix.c_str());
+          if (!oset) { c.violation("registry", "opcode-set-not-found-by-prefix", "orc_opcode_set_get() does not find a registered set"); continue; }
+        } else {
+          oset = orc_opcode_set_get_nth(sets[m.set].major);
+          c.count("probe.opcode_set_with_shared_prefix");
+          if (!oset || oset->opcodes != sets[m.set].arr) { c.violation("registry", "opcode-set-not-found-by-number", "orc_opcode_set_get_nth(<number returned by the registration>) is not the registered set"); continue; }
+        }
       }
       OrcRuleSet *rs = orc_rule_set_new(oset, t, m.req);
       for (auto &item : split(kv(w, "ops"), ',')) {
